@@ -17,7 +17,7 @@
   modelled); the generic awaitable⇄sender round trip of connect_awaitable/as_sender for arbitrary
   awaitables (exercised here only with task<> and manual senders).
 -/
-import UnifexModel.Calc.CoroInv
+import UnifexModel.Calc.CoroTok
 
 namespace Unifex.Props.C10
 open Unifex.Coro
@@ -85,8 +85,8 @@ theorem done_unwinds_to_receiver : ∀ (fs : List Frame) (s : St), s.ctl = .exit
   induction fs with
   | nil =>
     intro s hc hf _ hso
-    refine ⟨1, ?_⟩
-    simp [iter, step, hc, hf, rootDone, hso, emit, rootTrace, cleanupTrace]
+    obtain ⟨r1, r2, r3⟩ := root_step specs s .done (by simpa [exitCtl] using hc) hf hso
+    exact ⟨1, r1, r2, by simpa [iter] using r3⟩
   | cons fr rest ih =>
     intro s hc hf hsync hso
     obtain ⟨m1, hE⟩ := exit_sim specs .done fr.cleanups s fr rest hc hf rfl (hsync fr List.mem_cons_self)
@@ -105,16 +105,16 @@ theorem done_unwinds_to_receiver : ∀ (fs : List Frame) (s : St), s.ctl = .exit
     co_return value as set_value, its escaped exception as set_error, done as set_done — **after exactly
     the spec's cleanup actions in the spec's order** (children before parents, each frame's own cleanups
     in reverse registration order).  For every program, every leaf script, both scheduler modes. -/
-theorem task_as_sender_outcome (p : Prog) (inl st : Bool) (hI : progInline specs inl p = true) :
-    let s := deliver specs .start (St.init p inl st)
+theorem task_as_sender_outcome (p : Prog) (inl st ad : Bool) (hI : progInline specs inl p = true) :
+    let s := deliver specs .start (St.init p inl st ad)
     s.ctl = .finished ∧ rootTrace s.outs = [(evalProg specs false p).1] ∧
       cleanupTrace s.outs = (evalProg specs false p).2 := by
   intro s
-  have hs : s = onStart specs { St.init p inl st with rootStopped := false } := by
-    show deliver specs .start (St.init p inl st) = _
+  have hs : s = onStart specs { St.init p inl st ad with rootStopped := false } := by
+    show deliver specs .start (St.init p inl st ad) = _
     simp [deliver, St.init]
   rw [hs]
-  exact start_inline specs p inl st false (Or.inl rfl) hI
+  exact start_inline specs p inl st ad false (Or.inl rfl) hI
 
 /-- the same when stop was requested before start() (inline scheduler): `stop_if_requested` then cancels -/
 theorem task_as_sender_outcome_stopped (p : Prog) (hI : progInline specs true p = true) :
@@ -126,7 +126,7 @@ theorem task_as_sender_outcome_stopped (p : Prog) (hI : progInline specs true p 
     show runEvents specs (St.init p true) [.stop, .start] = _
     simp [runEvents, deliver, onStop, St.init, Ctl.callbackRegistered]
   rw [hs]
-  exact start_inline specs p true true true (Or.inr rfl) hI
+  exact start_inline specs p true true false true (Or.inr rfl) hI
 
 /-- what the spec says about the three ways a body ends and about cleanups (readable without the model) -/
 theorem evalProg_examples :
@@ -176,9 +176,9 @@ theorem popped_only_after_cleanups (s : St) (fr : Frame) (rest : List Frame) (o 
     the cleanups that ran are exactly the registered ones most-recent-first — and that is what the
     observable trace says: its `cleanup f _` items are the reverse of its `reg f _` items.  When the
     receiver has been completed, no frame is left on the stack (so all of them satisfy this). -/
-theorem cleanups_run_once_reverse_order_before_parent (p : Prog) (inl st : Bool) (evs : List Ev)
+theorem cleanups_run_once_reverse_order_before_parent (p : Prog) (inl st ad : Bool) (evs : List Ev)
     (hev : ∀ ev ∈ evs, ev ≠ .destroy) :
-    let s := runEvents specs (St.init p inl st) evs
+    let s := runEvents specs (St.init p inl st ad) evs
     (∀ f ∈ s.zombies ++ s.gone,
         f.cleanups = [] ∧ f.ran = f.regd ∧
         cleanupTraceOf f.id s.outs = (regTrace f.id s.outs).reverse) ∧
@@ -187,7 +187,7 @@ theorem cleanups_run_once_reverse_order_before_parent (p : Prog) (inl st : Bool)
     (s.ctl = .finished → s.frames = []) ∧
     (rootTrace s.outs).length = (if s.ctl = .finished then 1 else 0) := by
   intro s
-  have h : Inv s := (Inv.init p inl st).runEvents specs evs hev
+  have h : Inv s := (Inv.init p inl st ad).runEvents specs evs hev
   refine ⟨?_, ?_, ?_, h.roots⟩
   · intro f hfm
     obtain ⟨h1, h2⟩ := h.retired f hfm
@@ -207,36 +207,48 @@ theorem cleanups_run_once_reverse_order_before_parent (p : Prog) (inl st : Bool)
 
 /-- during any run: no frame is destroyed twice, a frame on the stack or cancelled has not been destroyed,
     frame ids are never reused -/
-theorem frames_destroyed_at_most_once (p : Prog) (inl st : Bool) (evs : List Ev) (hev : ∀ ev ∈ evs, ev ≠ .destroy) :
-    let s := runEvents specs (St.init p inl st) evs
+theorem frames_destroyed_at_most_once (p : Prog) (inl st ad : Bool) (evs : List Ev) (hev : ∀ ev ∈ evs, ev ≠ .destroy) :
+    let s := runEvents specs (St.init p inl st ad) evs
     (∀ f ∈ s.frames ++ s.zombies, deadCount f.id s.outs = 0) ∧
     (∀ f ∈ s.gone, deadCount f.id s.outs = 1) ∧
     ((s.frames ++ (s.zombies ++ s.gone)).map (·.id)).Nodup ∧
     (s.frames ++ (s.zombies ++ s.gone)).length = s.nextId := by
   intro s
-  have h : Inv s := (Inv.init p inl st).runEvents specs evs hev
+  have h : Inv s := (Inv.init p inl st ad).runEvents specs evs hev
   exact ⟨fun f hf => (h.okLive f hf).dead, fun f hf => (h.okGone f hf).dead, h.nodup, h.count⟩
 
 /-- **At the end** (any program, any events, the receiver has been completed, then the operation state is
     destroyed): every frame that was ever created (`nextId` of them, distinct ids) has been destroyed, the
     trace contains its `frameDead` EXACTLY ONCE, and the cleanups it registered each ran exactly once, in
     reverse registration order. -/
-theorem frames_destroyed_once (p : Prog) (inl st : Bool) (evs : List Ev) (hev : ∀ ev ∈ evs, ev ≠ .destroy)
-    (hfin : (runEvents specs (St.init p inl st) evs).ctl = .finished) :
-    let s := deliver specs .destroy (runEvents specs (St.init p inl st) evs)
+theorem frames_destroyed_once (p : Prog) (inl st ad : Bool) (evs : List Ev) (hev : ∀ ev ∈ evs, ev ≠ .destroy)
+    (hfin : (runEvents specs (St.init p inl st ad) evs).ctl = .finished) :
+    let s := deliver specs .destroy (runEvents specs (St.init p inl st ad) evs)
     s.frames = [] ∧ s.zombies = [] ∧ s.gone.length = s.nextId ∧ (s.gone.map (·.id)).Nodup ∧
     ∀ f ∈ s.gone, f.id < s.nextId ∧ deadCount f.id s.outs = 1 ∧
       cleanupTraceOf f.id s.outs = (regTrace f.id s.outs).reverse := by
-  have h0 : Inv (runEvents specs (St.init p inl st) evs) := (Inv.init p inl st).runEvents specs evs hev
-  generalize runEvents specs (St.init p inl st) evs = s0 at hfin h0 ⊢
+  have h0 : Inv (runEvents specs (St.init p inl st ad) evs) := (Inv.init p inl st ad).runEvents specs evs hev
+  generalize runEvents specs (St.init p inl st ad) evs = s0 at hfin h0 ⊢
   intro s
   have h : Inv s0 := h0
   have hfr : s0.frames = [] := h.fin (by rw [hfin]; rfl)
-  have hs : s = destroyFrames { s0 with frames := [], zombies := [] } s0.zombies := by
-    show deliver specs .destroy s0 = _
-    simp [deliver, onDestroy, hfin, hfr]
   obtain ⟨d1, d2, d3, _, d5, d6, _, d8⟩ := destroyFrames_spec s0.zombies { s0 with frames := [], zombies := [] }
-  rw [← hs] at d1 d2 d3 d5 d6 d8
+  obtain ⟨sd, hsd⟩ : ∃ sd, sd = destroyFrames { s0 with frames := [], zombies := [] } s0.zombies := ⟨_, rfl⟩
+  rw [← hsd] at d1 d2 d3 d5 d6 d8
+  have hs : s = if s0.adapter then emit { sd with tokRegs := 0 } (.tokRegs 0) else { sd with tokRegs := 0 } := by
+    show deliver specs .destroy s0 = _
+    rw [hsd]
+    simp [deliver, onDestroy, hfin, hfr]
+  have e1 : s.frames = sd.frames := by rw [hs]; split <;> rfl
+  have e2 : s.zombies = sd.zombies := by rw [hs]; split <;> rfl
+  have e3 : s.nextId = sd.nextId := by rw [hs]; split <;> rfl
+  have e5 : s.gone = sd.gone := by rw [hs]; split <;> rfl
+  have e6 : deadTrace s.outs = deadTrace sd.outs := by rw [hs]; split <;> simp [emit, deadTrace]
+  have e8 : ∀ g, regTrace g s.outs = regTrace g sd.outs ∧ cleanupTraceOf g s.outs = cleanupTraceOf g sd.outs := by
+    intro g; rw [hs]; split <;> simp [emit, regTrace, cleanupTraceOf]
+  rw [← e1] at d1; rw [← e2] at d2; rw [← e3] at d3; rw [← e5] at d5; rw [← e6] at d6
+  have d8 : ∀ g, regTrace g s.outs = regTrace g s0.outs ∧ cleanupTraceOf g s.outs = cleanupTraceOf g s0.outs := by
+    intro g; rw [(e8 g).1, (e8 g).2]; exact d8 g
   have hnd := h.nodup
   simp only [St.all, hfr, List.nil_append, List.map_append, List.nodup_append] at hnd
   obtain ⟨ndz, ndg, hdis⟩ := hnd
@@ -332,13 +344,79 @@ theorem stop_does_not_reach_cleanup (s : St) (i : Nat) (o : Outcome) (hc : s.ctl
   · rfl
 
 /-- the receiver is completed at most once, over any run -/
-theorem root_completed_at_most_once (p : Prog) (inl st : Bool) (evs : List Ev) (hev : ∀ ev ∈ evs, ev ≠ .destroy) :
-    (rootTrace (runEvents specs (St.init p inl st) evs).outs).length ≤ 1 := by
-  have h : Inv (runEvents specs (St.init p inl st) evs) := (Inv.init p inl st).runEvents specs evs hev
+theorem root_completed_at_most_once (p : Prog) (inl st ad : Bool) (evs : List Ev) (hev : ∀ ev ∈ evs, ev ≠ .destroy) :
+    (rootTrace (runEvents specs (St.init p inl st ad) evs).outs).length ≤ 1 := by
+  have h : Inv (runEvents specs (St.init p inl st ad) evs) := (Inv.init p inl st ad).runEvents specs evs hev
   rw [h.roots]; split <;> omega
 
 /-- the evaluator never runs out of fuel: `settle` always ends in a quiescent state -/
 theorem settle_quiescent (s : St) : (settle specs s).halted = true := settle_halted specs s
+
+/-! ### 7. both routes of stop_if_requested(), plain awaitables, nothing left on the receiver's stop token -/
+
+/-- `stop_if_requested()` awaited directly (its awaiter) and composed with a sender algorithm first (its
+    operation state: `co_await then(stop_if_requested(), f)`) do the same thing: the coroutine goes on —
+    nothing observable — unless stop has been REQUESTED on the task's stop token, in which case it unwinds
+    as cancelled.  Whether the token merely CAN be stopped (`stoppable`) plays no role. -/
+theorem stop_if_requested_routes_agree (s : St) (fr : Frame) (rest : List Frame) (k : Prog) (viaSender : Bool)
+    (hc : s.ctl = .exec) (hf : s.frames = fr :: rest)
+    (hk : fr.kont = (if viaSender then Stmt.stopIfRequestedS else Stmt.stopIfRequested) :: k) :
+    step specs s =
+      (if s.srcStopped then { s with frames := { fr with kont := k } :: rest, ctl := .exit .done }
+       else { s with frames := { fr with kont := k } :: rest }) := by
+  cases viaSender <;> simp at hk <;> simp [step, hc, hf, execStep, hk]
+
+/-- `co_await` of a plain awaitable (not a sender) that is ready or whose `await_suspend` says "not
+    suspending after all": the coroutine continues inline with its value (inline scheduler: the hop that
+    `with_scheduler_affinity` adds completes at once) -/
+theorem await_plain_no_suspend (s : St) (fr : Frame) (rest : List Frame) (i v : Nat) (t : Bool) (k : Prog) (a : Bool)
+    (hc : s.ctl = .exec) (hf : s.frames = fr :: rest) (hk : fr.kont = .awaitPlain i t :: k)
+    (hs : specs i = ⟨.inline (.value v), a⟩) (hh : s.inlineSched = true) :
+    iter specs 2 s =
+      { s with frames := { fr with kont := k, catching := t, acc := fr.acc + v } :: rest, ctl := .exec,
+               outs := s.outs ++ [.plainStart i, .sched fr.sched] } := by
+  have h1 : step specs s = { s with frames := { fr with kont := k, catching := t } :: rest, ctl := .resume (.value v), outs := s.outs ++ [.plainStart i, .sched fr.sched] } := by
+    simp [step, hc, hf, execStep, hk, hs, leafDone, schedHop, hh, emit, plainOutcome]
+  show iter specs 1 (step specs s) = _
+  rw [h1]
+  simp [iter, step, resumeStep]
+
+/-- a suspended plain awaitable cannot see a stop request (it has no receiver, hence no stop token) -/
+theorem stop_does_not_reach_plain_awaitable (s : St) (i : Nat) (hc : s.ctl = .waitPlain i)
+    (hst : s.stoppable = true) (hns : s.rootStopped = false) (hin : s.inlineSched = true) :
+    (deliver specs .stop s).outs = s.outs ++ [.sched 0] ∧ (deliver specs .stop s).ctl = .waitPlain i := by
+  cases s
+  simp only [] at hc hns hin hst
+  subst hc hns hin hst
+  simp only [deliver, onStop, Ctl.callbackRegistered, deliverStop, emit]
+  simp only [Bool.false_eq_true, if_false, Bool.not_true, if_true, Bool.or_self]
+  rw [settle_of_halted]
+  · simp [stopOpDone]
+  · rfl
+
+/-- NOTHING IS LEFT BEHIND on the receiver's stop token (any program, any receiver kind, any events): at most
+    one stop callback is ever registered there on behalf of the task (the thunk's, or the adapter's for a
+    foreign token type); when the receiver has been completed with a VALUE or an EXCEPTION none is registered
+    any more; after a `done` completion only the adapter may still be, and once the operation state has been
+    destroyed none is. -/
+theorem nothing_left_on_receiver_stop_token (p : Prog) (inl st ad : Bool) (evs : List Ev)
+    (hev : ∀ ev ∈ evs, ev ≠ .destroy) :
+    let s := runEvents specs (St.init p inl st ad) evs
+    s.tokRegs ≤ 1 ∧
+    (∀ o, s.ctl = .finished → rootTrace s.outs = [o] → o ≠ .done → s.tokRegs = 0) ∧
+    (s.ctl = .idle → s.tokRegs = 0) ∧
+    (s.ctl = .finished ∨ s.ctl = .idle → (deliver specs .destroy s).tokRegs = 0) := by
+  intro s
+  have h : Inv s := (Inv.init p inl st ad).runEvents specs evs hev
+  have t : TokInv s := (TokInv.init p inl st ad).runEvents specs (Inv.init p inl st ad) evs hev
+  refine ⟨t.le, ?_, t.idle, ?_⟩
+  · intro o _ hr ho
+    rcases t.fin (by rw [hr]; simp) with h0 | ⟨_, hd⟩
+    · exact h0
+    · rw [hr] at hd; cases hd; exact absurd rfl ho
+  · intro hc
+    simp only [deliver, onDestroy, hc, if_true]
+    split <;> rfl
 
 /-! ### 6. non-vacuity: concrete runs (kernel-evaluated) that exercise the interesting paths; the same
     cases are in corpus/coro/c10.txt and are replayed on the real library by every check run -/
@@ -387,5 +465,22 @@ example :
       [.start, .run, .complete 1 (.value 3), .run, .run]).outs =
     [.frameStart 0, .reg 0 1, .reg 0 0, .sched 2, .reg 0 2, .leafStart 1 false, .sched 2,
      .localsDead 0, .cleanup 0 2, .cleanupSched 2, .cleanup 0 0, .sched 0, .cleanup 0 1, .cleanupSched 0, .frameDead 0, .root (.value 4)] := by decide
+
+/-- foreign stop-token type (`adapter`): on a value completion the adapter is unsubscribed BEFORE the receiver is
+    completed (`tokRegs 0` precedes `root`); on done it is still subscribed then and released with the operation -/
+example :
+    let sp : Nat → LeafSpec := fun _ => ⟨.pending none, true⟩
+    (runEvents sp (St.init [.await 1 false, .ret 2] true true true) [.start, .complete 1 (.value 2), .destroy]).outs =
+      [.frameStart 0, .leafStart 1 false, .localsDead 0, .frameDead 0, .tokRegs 0, .root (.value 4), .tokRegs 0] ∧
+    (runEvents sp (St.init [.await 1 false, .ret 2] true true true) [.start, .complete 1 .done, .destroy]).outs =
+      [.frameStart 0, .leafStart 1 false, .tokRegs 1, .root .done, .localsDead 0, .frameDead 0, .tokRegs 0] := by decide
+
+/-- the sender route of stop_if_requested with a stoppable token and NO stop request continues; plain
+    awaitables: one that does not suspend (1) and one that suspends (2) and is resumed later -/
+example :
+    let sp : Nat → LeafSpec := fun i => if i = 1 then ⟨.inline (.value 3), false⟩ else ⟨.pending none, false⟩
+    (runEvents sp (St.init [.stopIfRequestedS, .awaitPlain 1 false, .awaitPlain 2 false, .stopIfRequestedS, .ret 1] true)
+      [.start, .stop, .complete 2 (.value 4)]).outs =
+    [.frameStart 0, .plainStart 1, .sched 0, .plainStart 2, .sched 0, .sched 0, .root .done] := by decide
 
 end Unifex.Props.C10
